@@ -104,6 +104,18 @@ fn nb_cli_account_commands() {
         assert_eq!(ok(&["address", "--mnemonic", GANACHE, "--account-index", &idx], &[], None), k.address().to_string(), "address --account-index {i}");
         cases += 3;
     }
+    // an invalid selector is an error for every command, never a silent fallback to another account
+    for cmd in ["address", "export", "public-key"] {
+        for bad in ["44'/60'/0'/0/1", "m/44'/60'/0'/0/x", "m/44'/60'/0'/0/2147483648", "m/44'/60'/0'/0/1 ", "", "m/", "m/0''"] {
+            ordinary_error(&[cmd, "--mnemonic", GANACHE, "--hd-path", bad], &[], None);
+            ordinary_error(&[cmd], &[("MNEMONIC", GANACHE), ("HD_PATH", bad)], None);
+            cases += 2;
+        }
+        for bad in ["2147483648", "4294967296", "-1"] {
+            ordinary_error(&[cmd, "--mnemonic", GANACHE, "--account-index", bad], &[], None);
+            cases += 1;
+        }
+    }
     // address is EIP-55 (ganache vector) and the two selectors cannot be combined
     assert_eq!(ok(&["address"], &[("MNEMONIC", GANACHE)], None), "0x90F8bf6A479f320ead074411a4B0e7944Ea8c9C1");
     ordinary_error(&["address", "--mnemonic", GANACHE, "--account-index", "1", "--hd-path", "m/0"], &[], None);
